@@ -1,7 +1,7 @@
 """C14  sequence files parse to exactly their residues."""
 import os
 
-from .. import common, tlc, traces, inputs
+from .. import common, tlc, traces, inputs, objmodel
 
 OTHER = list("-_.,;:!?/\\|()[]{}@#$%^&+=~`'\"BJOUXZbjouxz")
 
@@ -65,7 +65,7 @@ def parse_event(ctx, lc, files, content, battery=False):
             if ref[0] == "ok":
                 a, b = inputs.battery(o[1]), inputs.battery(ref[1])
                 for q in a:
-                    if repr(a[q]) != repr(b[q]):
+                    if not objmodel.same_reply(objmodel.digest(a[q]), objmodel.digest(b[q])):
                         ctx.violation("file-object-answers-differently", dict(case, query=q), expected=b[q], actual=a[q])
                         break
             pm = common.call(lambda: lc.SPerm(sequenceFile=path).SeqObj.seq)
